@@ -294,7 +294,7 @@ def c20_sig(v):
 
 # ------------------------------------------------------------------ engine-level properties
 ES_INV = ("TypeOK C01_Prefix C01_NothingLost C01_NoStuckBuffer C02_Order C03_OneClose C03_ClosedIsFinal C03_NoSpuriousError C04_Registry C04_NoUnderflow "
-          "C12_PollReleased C11_NoStuckPoll C12_BufferedFirst C08_AtMostOnce C08_FailureKeepsSession C08_ProbeFirst C07_DeadlineArmed")
+          "C12_PollReleased C11_NoStuckPoll C12_BufferedFirst C12_NoLostWakeup C08_AtMostOnce C08_FailureKeepsSession C08_ProbeFirst C07_DeadlineArmed")
 
 
 def es_cfg(msgs, climsgs, polls, pings, feats, inv=ES_INV, dev="{}", props=True):
@@ -308,12 +308,12 @@ def es_cfg(msgs, climsgs, polls, pings, feats, inv=ES_INV, dev="{}", props=True)
 ES_FAMS = {
     # family: (quick model config, thorough model config)
     "flow": (("{1,2,3}", "{7}", 3, 0, '{"upgrade","window","dwindow"}'), ("{1,2,3}", "{7,8}", 5, 1, '{"upgrade","window","dwindow","heartbeat"}')),
-    "life": (("{1,2}", "{7}", 3, 1, '{"close","peer","heartbeat","overlap","closewin"}'),
-             ("{1,2,3}", "{7,8}", 4, 2, '{"close","peer","heartbeat","overlap","closewin","window","abort","ctimeout"}')),
+    "life": (("{1,2}", "{7}", 3, 1, '{"close","peer","heartbeat","overlap","closewin","cwindow"}'),
+             ("{1,2,3}", "{7,8}", 4, 2, '{"close","peer","heartbeat","overlap","closewin","window","abort","ctimeout","cwindow"}')),
     "upg": (("{1,2}", "{7}", 3, 1, '{"upgrade","close","peer","heartbeat","window","late","closewin"}'),
             ("{1,2,3}", "{7}", 4, 1, '{"upgrade","close","peer","heartbeat","window","late","closewin","abort"}')),
-    "poll": (("{1,2}", "{7}", 4, 0, '{"overlap","peer","close","abort","window","dwindow"}'),
-             ("{1,2,3}", "{7,8}", 5, 1, '{"overlap","peer","close","heartbeat","abort","window","closewin","ctimeout"}')),
+    "poll": (("{1,2}", "{7}", 4, 0, '{"overlap","peer","close","abort","window","dwindow","cwindow"}'),
+             ("{1,2,3}", "{7,8}", 5, 1, '{"overlap","peer","close","heartbeat","abort","window","closewin","ctimeout","cwindow"}')),
 }
 # every deviation must make TLC find its invariant violated (the invariants are not vacuous, the model is sensitive)
 ES_DEVS = [
@@ -329,6 +329,7 @@ ES_DEVS = [
     ("UpgradeNoProbe", "C08_ProbeFirst", '{"upgrade"}'),
     ("WsCloseCutsSend", "C12_BufferedFirst", '{"upgrade","close","window"}'),
     ("CloseSkipsTaken", "C12_BufferedFirst", '{"close","window"}'),
+    ("CloseMissesDrain", "C12_NoLostWakeup", '{"close","window","dwindow","cwindow"}'),
 ]
 MON_EIO_CFG = 'SPECIFICATION Spec\nCONSTANT TraceFile = "trace.ndjson"\nCHECK_DEADLOCK FALSE\n'
 
@@ -339,12 +340,12 @@ ES_COVER = {
     # family: (quick instance, thorough instance) = (Msgs, CliMsgs, MaxPolls, MaxPings, Features)
     "flow": (("{1,2}", "{7}", 3, 0, '{"upgrade","window","dwindow","lastonly"}'),
              ("{1,2}", "{7}", 4, 0, '{"upgrade","window","dwindow","lastonly"}')),
-    "life": (("{1}", "{7}", 2, 1, '{"close","peer","heartbeat","overlap","closewin","lastonly"}'),
-             ("{1,2}", "{7}", 3, 1, '{"close","peer","heartbeat","overlap","closewin","lastonly"}')),
+    "life": (("{1}", "{7}", 2, 1, '{"close","peer","heartbeat","overlap","closewin","cwindow","lastonly"}'),
+             ("{1,2}", "{7}", 3, 1, '{"close","peer","heartbeat","overlap","closewin","cwindow","lastonly"}')),
     "upg": (("{1}", "{}", 2, 0, '{"upgrade","close","window","late","closewin","lastonly"}'),
             ("{1}", "{7}", 3, 0, '{"upgrade","close","window","late","closewin","lastonly"}')),
-    "poll": (("{1}", "{}", 3, 0, '{"overlap","peer","close","abort","window","dwindow","lastonly"}'),
-             ("{1,2}", "{7}", 3, 0, '{"overlap","peer","close","abort","window","dwindow","lastonly"}')),
+    "poll": (("{1}", "{}", 3, 0, '{"overlap","peer","close","abort","window","dwindow","cwindow","lastonly"}'),
+             ("{1,2}", "{7}", 3, 0, '{"overlap","peer","close","abort","window","dwindow","cwindow","lastonly"}')),
 }
 
 
